@@ -142,8 +142,8 @@ def wire_out(sem, y):
     return (v * (1 - eps), v * (1 + eps))
 
 # ---------------------------------------------------------------------------- operands
-def gen_operand(rng, types, pool, sem, p_bc=0.15, p_zero_default=None, **kw):
-    vaxes, pool = U.gen_pattern(types, rng, pool, **kw)
+def gen_operand(rng, types, pool, sem, p_bc=0.15, p_zero_default=None, vaxes=None, **kw):
+    if vaxes is None: vaxes, pool = U.gen_pattern(types, rng, pool, **kw)
     paxes = U.fv_list(vaxes); rng.shuffle(paxes)
     sizes = [n for _, n in paxes]
     bc = [rng.random() < p_bc for _ in paxes]
@@ -286,6 +286,89 @@ def _gen_case(rng, sig, sem, budget=300, feature=None, variant="einsum", p_zero_
             s["storage"] = [4.0 if x == INF else x for x in s["storage"]]
             if s["default"] == INF: s["default"] = 4.0
     return dict(inputs=inputs, output=output, sem=sem, ops=ops, genabled=genabled, variant=variant, feature=feature)
+
+# ---------------------------------------------------------------------------- stream (8): refinements of product indices
+# An index of PRODUCT type p1 x p2 x ... x pk (a flat list of small atoms) may be seen by every operand through a
+# different factorisation: any grouping of CONSECUTIVE atoms into blocks, one PhysicalAxis per block (12 = 2x2x3 seen
+# as 12, 2*6, 4*3, 2*2*3).  Any two such groupings have a common refinement, so Axis.unify must succeed by SPLITTING
+# the larger last factor (the branches m < n and m > n of its product loop) -- also when that factor is ALREADY BOUND
+# by an earlier unification.  A block axis is shared (same PhysicalAxis object) between positions whose blocks have the
+# same atom list: between two indices of one operand (vaxes (P*Q, Q)), between operands when the pool is shared.
+REFINE_BASES = U.REFINE_BASES
+_blk_type = U.blk_type
+gen_refine_axis = U.gen_refine_axis
+
+def gen_refine_ltypes(rng, nl, budget):
+    """atom lists of the labels: the first is a base list, the others are mostly consecutive sub-lists of it (so that a
+    block of one index can be the whole of another: a factor axis shared between two indices)"""
+    for _ in range(200):
+        base = rng.choice(REFINE_BASES)
+        ls = [base]
+        for _l in range(1, nl):
+            c = rng.random()
+            if c < 0.6:
+                i = rng.randrange(len(base)); j = rng.randint(i + 1, len(base))
+                ls.append(base[i:j])
+            elif c < 0.85: ls.append(rng.choice(REFINE_BASES))
+            else: ls.append([rng.choice([2, 3, 4])])
+        rng.shuffle(ls)
+        if math.prod(math.prod(l) for l in ls) <= budget: return ls
+    return [[2, 2]] * nl
+
+def gen_refine_sig(rng):
+    """>= 3 operands (sometimes 2) of rank 1-2 over 1-3 indices, every index attached at least twice when possible"""
+    nl = rng.choice([1, 2, 2, 3])
+    nops = rng.choice([2, 3, 3, 3, 4])
+    for _ in range(100):
+        ins = [[rng.randrange(nl) for _ in range(rng.choice([1, 1, 2, 2, 3] if nl > 1 else [1, 1, 2]))] for _ in range(nops)]
+        cnt = [sum(w.count(l) for w in ins) for l in range(nl)]
+        if all(c >= 1 for c in cnt) and sum(c >= 2 for c in cnt) >= max(1, nl - 1) and sum(len(w) for w in ins) <= 7: break
+    else:
+        ins = [[l % nl] for l in range(max(nops, nl))]
+    out = rng.sample(range(nl), rng.randint(0, nl))
+    return ins, out
+
+def gen_refine_case(rng, sem, variant="einsum", budget=300, grad=False):
+    inputs, output = gen_refine_sig(rng)
+    nl = 1 + max(l for w in inputs for l in w)
+    ltypes = gen_refine_ltypes(rng, nl, budget)
+    share_pool = rng.random() < 0.35
+    pool = U.Pool(); ops = []
+    p_split = rng.choice([0.3, 0.5, 0.7]); p_share = rng.choice([0.3, 0.5, 0.8])
+    for w in inputs:
+        for _ in range(50):
+            pl = pool.copy() if share_pool else U.Pool(pool.next)
+            vaxes = [gen_refine_axis(ltypes[l], pl, rng, p_split, p_share) for l in w]
+            spec, _ = gen_operand(rng, [_blk_type(ltypes[l]) for l in w], pl, sem, p_bc=0.1, p_zero_default=0.75, vaxes=vaxes)
+            if math.prod(max(n, 1) for _, n in spec["paxes"]) <= 64: break
+        if share_pool: pool = pl
+        else: pool.next = pl.next
+        ops.append(spec)
+    genabled = True
+    if sem != "bool" and (grad or rng.random() < 0.25):
+        for s in ops:
+            if rng.random() < 0.6: s["rg"] = True
+        genabled = False
+    elif rng.random() < 0.3: genabled = False
+    if sem == "vit" and variant == "vit":
+        for s in ops:
+            s["storage"] = [4.0 if x == INF else x for x in s["storage"]]
+            if s["default"] == INF: s["default"] = 4.0
+    return dict(inputs=inputs, output=output, sem=sem, ops=ops, genabled=genabled, variant=variant, feature="refine",
+                ltypes=ltypes)
+
+def refine_profile(case):
+    """(some index is seen through >= 2 different factorisations, some operand shares a factor axis between two of its indices)"""
+    seen = {}
+    for w, s in zip(case["inputs"], case["ops"]):
+        for l, e in zip(w, s["vaxes"]):
+            seen.setdefault(l, set()).add(tuple(n for _, n in ([e[1]] if e[0] == "Phys" else [x[1] for x in e[1]])))
+    differ = any(len(v) > 1 for v in seen.values())
+    shared = False
+    for s in case["ops"]:
+        per = [set(U.a_fv(e)) for e in s["vaxes"]]
+        if any(per[i] & per[j] for i in range(len(per)) for j in range(i + 1, len(per))): shared = True
+    return differ, shared
 
 def has_both_infs(case):
     vals = [x for s in case["ops"] for x in list(s["storage"]) + [s["default"]]]
@@ -659,6 +742,14 @@ def make_cases(tier, seed):
             for sp in c["ops"]: sp["rg"] = False
         c["history"] = gen_history(rng, c, rng.choice([2, 2, 3]))
         cases.append(c)
+    # (8) refinements: indices of product type seen through DIFFERENT factorisations by different operands (12 = 2x2x3 as
+    # 12 / 2*6 / 4*3 / 2*2*3), >= 3 operands mostly, a factor axis shared between two indices of one operand, random
+    # operand order: unify has to split factors that are already bound by an earlier unification
+    for i in range(170 if quick else 6000):
+        r = i % 10
+        if r == 9: c = gen_refine_case(rng, "vit", variant="vit")
+        else: c = gen_refine_case(rng, SEMS[i % 4], grad=(r == 7))
+        cases.append(c)
     return cases, n_sigs
 
 def run_jobs(jobs, seed):
@@ -686,6 +777,11 @@ def run(tier, seed):
         if any(has_nested_zero(sp) for sp in case["ops"]): hist.setdefault("empty_physical_in_nonempty_shape", {"n": 0})["n"] += 1
         if any(sp["default"] != {"bool": False, "vit": -INF}.get(case["sem"], 0.0) for sp in case["ops"]):
             hist.setdefault("some_default_not_semiring_zero", {"n": 0})["n"] += 1
+        if case.get("feature") == "refine":
+            differ, shared = refine_profile(case)
+            h = hist.setdefault("refine", dict(cases=0, factorisations_differ=0, factor_shared_between_indices=0, both=0, operands_ge3=0))
+            h["cases"] += 1; h["factorisations_differ"] += differ; h["factor_shared_between_indices"] += shared; h["both"] += differ and shared
+            h["operands_ge3"] += len(case["ops"]) >= 3
         if changed:
             violations.append(Violation("einsum modified one of its operands", case=case, corr="corr:einsum (operands unchanged)", call="fggs.indices.einsum"))
         cf = checkfn_of(case)
